@@ -44,11 +44,13 @@
 (* reproduced on the pinned tree); the repaired variant satisfies all.     *)
 (***************************************************************************)
 EXTENDS Integers, Sequences, FiniteSets, FiniteSetsExt, SequencesExt, TLC
-CONSTANTS HasMax, KMax, KMin, MinZero, KEdge, KOut, Variant
+CONSTANTS HasMax, KMax, KMin, MinZero, KEdge, KOut, Variant,
+          HasRit, KRit     \* a maxrit was given; KRit (any sign) is the first exponent whose sma is > maxrit: from there on fits are non-iterative
 VARIABLES phase, k, list, noiter
 vars == <<phase, k, list, noiter>>
 Central == -1000
-Par == [HasMax |-> HasMax, KMax |-> KMax, KMin |-> KMin, MinZero |-> MinZero, Variant |-> Variant]
+Par == [HasMax |-> HasMax, KMax |-> KMax, KMin |-> KMin, MinZero |-> MinZero, Variant |-> Variant, HasRit |-> HasRit, KRit |-> KRit]
+Rit(q, e) == q.HasRit /\ e >= q.KRit                 \* fit_isophote: `noniterate or (maxrit and sma > maxrit)`
 Rec(e, c) == [k |-> e, code |-> c]
 
 Init == phase = "out" /\ k = 0 /\ list = <<>> /\ noiter = FALSE
@@ -60,9 +62,10 @@ Advance(q, l, ni) == LET nk == Last(l).k + 1 IN
                      ELSE phase' = "out" /\ k' = nk /\ list' = l /\ noiter' = ni
 
 \* one pass through the body of the outward `while True` loop; c = stop code returned by fit_isophote at exponent k
-FitOut(q, c) ==
+\* t: fewer than fflag of the sample points of this isophote lie on the image (only looked at for non-iterative isophotes without a maxsma)
+FitOut(q, c, t) ==
   /\ phase = "out"
-  /\ (noiter <=> c = 4)                          \* non-iterative mode returns code 4, and nothing else does
+  /\ ((noiter \/ Rit(q, k)) <=> c = 4)          \* non-iterative fits (switched on by failures, or beyond maxrit) return code 4, and nothing else does
   /\ LET valid == c # 3
          l1 == IF valid THEN Append(list, Rec(k, c)) ELSE list
      IN IF c < 0 \/ c = 1
@@ -75,13 +78,16 @@ FitOut(q, c) ==
         ELSE IF ~valid /\ q.Variant = "repaired"
              THEN (IF l1 = <<>> THEN Finish(<<>>) ELSE ToInward(l1, noiter))
         ELSE IF l1 = <<>> THEN phase' = "crash" /\ UNCHANGED <<k, list, noiter>>   \* isophote_list[-1]: IndexError
+        \* beyond maxrit nothing is fitted and nothing can fail: without a maxsma the pass ends at the frame edge (fix 5151783; before it the
+        \* sma grew for ever - the model then has no terminating behaviour for HasRit /\ ~HasMax)
+        ELSE IF c = 4 /\ ~q.HasMax /\ t THEN ToInward(l1, noiter)
         ELSE Advance(q, l1, noiter)                                                \* (after an invalid fit: the same sma again)
 
 ToCentral(l) == phase' = "central" /\ list' = l /\ UNCHANGED <<k, noiter>>
 \* one pass through the body of the inward loop
 FitIn(q, c) ==
   /\ phase = "in"
-  /\ c # 4
+  /\ (Rit(q, k) <=> c = 4)
   /\ LET valid == c # 3
          l1 == IF valid THEN Append(list, Rec(k, c)) ELSE list
          l2 == IF c < 0 THEN [l1 EXCEPT ![Len(l1)].code = 5] ELSE l1              \* _fix_last_isophote(isophote_list, 0)
@@ -96,10 +102,11 @@ CentralAndSort(q) ==
      IN Finish(SortSeq(l1, LAMBDA a, b : a.k < b.k))
 
 \* ---- model checking: which codes can come back where --------------------------------------------------------------------
-OutCodes(e) == IF noiter THEN {4} ELSE IF e >= KOut THEN {3} ELSE IF e >= KEdge THEN {0, 1, 2, -1, 3} ELSE {0, 2, -1}
-InCodes == {0, 1, 2, -1, 3}
-Next == \/ \E c \in OutCodes(k) : FitOut(Par, c)
-        \/ \E c \in InCodes : FitIn(Par, c)
+OutCodes(e) == IF noiter \/ Rit(Par, e) THEN {4} ELSE IF e >= KOut THEN {3} ELSE IF e >= KEdge THEN {0, 1, 2, -1, 3} ELSE {0, 2, -1}
+InCodes(e) == IF Rit(Par, e) THEN {4} ELSE {0, 1, 2, -1, 3}
+ThinSet(e) == IF e >= KOut THEN {TRUE} ELSE IF e >= KEdge THEN {TRUE, FALSE} ELSE {FALSE}
+Next == \/ \E c \in OutCodes(k), t \in ThinSet(k) : FitOut(Par, c, t)
+        \/ \E c \in InCodes(k) : FitIn(Par, c)
         \/ CentralAndSort(Par)
 Spec == Init /\ [][Next]_vars /\ WF_vars(Next)
 
